@@ -1225,6 +1225,9 @@ func (r *Runner) call(ctx context.Context, pos syntax.Pos, args []string) {
 		r.Params = args[1:]
 		oldInFunc := r.inFunc
 		r.inFunc = true
+		// The ERR trap is not inherited by functions; there is no errtrace option.
+		oldErr := r.callbackErr
+		r.callbackErr = ""
 
 		// Functions run in a nested scope.
 		// Note that [Runner.exec] below does something similar.
@@ -1237,6 +1240,9 @@ func (r *Runner) call(ctx context.Context, pos syntax.Pos, args []string) {
 
 		r.Params = oldParams
 		r.inFunc = oldInFunc
+		if r.callbackErr == "" {
+			r.callbackErr = oldErr // unless the function set one of its own
+		}
 		r.exit.returning = false
 		return
 	}
